@@ -103,7 +103,9 @@ def create_signal(db, signal):  # type: (canmatrix.CanMatrix, canmatrix.Signal) 
         output += 'Var="%s" ' % signal.name
     else:
         output += "Var=%s " % signal.name
-    if signal.type_label:
+    if signal.type_label and signal.type_label not in ("signed", "unsigned", "float", "double"):
+        # bit, raw, char, string or an enumeration name; the numeric words are derived from the flags below,
+        # a label remembered from reading must not override is_signed / is_float changed since
         output += signal.type_label + " "
     else:
         if signal.is_float:
